@@ -201,25 +201,26 @@ impl PageTree {
         if depth == 0 {
             bail!("page tree depth exeeded");
         }
-        let mut pos = 0;
+        // the counts come from the file: their sum need not fit into 32 bits
+        let mut pos: u64 = 0;
         for &kid in &self.kids {
             let node = resolve.get(kid)?;
             match *node {
                 PagesNode::Tree(ref tree) => {
-                    if (pos .. pos + tree.count).contains(&page_nr) {
-                        return tree.page_limited(resolve, page_nr - pos, depth - 1);
+                    if (pos .. pos + tree.count as u64).contains(&(page_nr as u64)) {
+                        return tree.page_limited(resolve, (page_nr as u64 - pos) as u32, depth - 1);
                     }
-                    pos += tree.count;
+                    pos += tree.count as u64;
                 }
                 PagesNode::Leaf(ref _page) => {
-                    if pos == page_nr {
+                    if pos == page_nr as u64 {
                         return Ok(PageRc(node));
                     }
                     pos += 1;
                 }
             }
         }
-        Err(PdfError::PageOutOfBounds {page_nr, max: pos})
+        Err(PdfError::PageOutOfBounds {page_nr, max: pos.min(u32::MAX as u64) as u32})
     }
 
     /*
